@@ -11,7 +11,7 @@ CHECKS = {
         "byte doubling as terminator at full capacity; no derived-length read follows a possibly growing publication or terminator overwrite in any mutator; every defaulted parameter of the member "
         "declarations equals [basic.string]'s; iterator insert/erase/replace mutate for every ordering of valid positions incl. end() and empty ranges; conversions to std::string/streams pass "
         "(data(), size()); the 30 relational overloads and compare_impl realise the 3-way ordering; clamps and offsets use the object the position was validated against; the published length is "
-        "the checked one; cursor + remaining count is invariant in the find loops; traits compare/find over the own buffer end at or before size(); forwarding overloads call their own worker with every parameter; the storage classes instantiated for wchar_t/char16_t/char32_t/char access the buffer only through its own element type (no reinterpretation as another non-character type).",
+        "the checked one; cursor + remaining count is invariant in the find loops; traits compare/find over the own buffer end at or before size(); forwarding overloads call their own worker with every parameter; the storage classes instantiated for wchar_t/char16_t/char32_t/char access the buffer only through its own element type (no reinterpretation as another non-character type). The sign table of compare_impl covers ranges that start at the same address; a shrinking publication adjust_size(-k) has k capped by the current size.",
    note="Search results, shifted characters, copy/substr counts and stream extraction are not decided; trusts sa/ceval.py, sa/flow.py and the default-argument table transcribed from [basic.string]."),
  "C02": dict(level="other", design="4.2",
    technique="checks-before-effects path rule with a may-throw summary over the member call graph, guard-dominance (same-object) rule for position offsets and size subtractions by linear entailment, published-equals-checked rule, derived-length-after-publication typestate, symbolic summaries of the checking functions (paths through helpers to return/throw, contract by entailment), write/read extents by linear entailment with loops decided by an exact two-iteration pass plus an induction pass over inferred invariants",
@@ -19,7 +19,7 @@ CHECKS = {
         "check or call to a member that may throw is evaluated after the first length publication or character write of the body; every position parameter offset into X or subtracted from X.size() is "
         "dominated by check_index[_strict] against the same X or a branch entailing pos <= X.size(); every published length is exactly a policy-check result, a same-capacity size or 0, adjust_size only "
         "shrinks; no offset is computed from a re-derived length after a growing publication; every character write's destination range is proven inside [0,N] by linear arithmetic from the checks on its path, for every iteration of a loop by induction (candidate invariants assumed at the head and re-established at the back edge) and for the first two iterations exactly; check_size throws length_error exactly for size > N, check_add for size1+size2 > N, check_index out_of_range exactly for pos >= size, "
-        "check_index_strict exactly for pos > size, at() returns exactly for pos < size() - each decided on a symbolic summary of the function through its helpers; the storage array has N+1 elements; reads of the own buffer in the search/compare family end at or before size(). Read extents, source/destination aliasing and the silent policy are NOT decided.",
+        "check_index_strict exactly for pos > size, at() returns exactly for pos < size() - each decided on a symbolic summary of the function through its helpers; the storage array has N+1 elements; reads of the own buffer in the search/compare family end at or before size(). Read extents, source/destination aliasing and the silent policy are NOT decided. A shrinking publication adjust_size(-k) has k capped by the current size (parameters of non-public workers judged at their call sites); size() decodes what set_size/adjust_size encode for every layout and length (C02.enc).",
    note="Trusts the event tables in sa/fstring.py (which calls write characters, which publish a length) and sa/linear.py; iterator parameters are assumed to point into *this."),
  "C05": dict(level="other", design="4.5",
    technique="abstract-variant typestate interpretation of the lifetime machinery over the template patterns (calls followed, visit_alt/visit_alt_at applied to their lambdas, exceptional successors at every element operation, try/catch rollback), relational truth tables against [variant.relops], guard-dominance rules for get/get_if/visit/hash, case-label/alternative agreement of the instantiated dispatch switches",
@@ -73,7 +73,7 @@ CHECKS = {
         "every use of the first storage must be mirrored in order by the same operation on the second with the same size/index argument and the "
         "prescribed fill (none->false, plain->true, v.value()->v.has_value(), .real()->.imag()), results are built (first, second); operator== compares "
         "both storages; the paired iterators move/compare both sub-iterators alike; the array variants size both storages in their default constructor "
-        "and are not trivially default constructible; make_sequence yields value-initialised / filled storages; a value passed by reference is consumed before the storage it may alias is reallocated; == of the flag bitset covers every block.",
+        "and are not trivially default constructible; make_sequence yields value-initialised / filled storages; a value passed by reference is consumed before the storage it may alias is reallocated; == of the flag bitset covers every block. Forward, const and reverse iteration of all four containers (vector and array variants) instantiates; the block-count and index helpers of the flag bitset are folded exactly.",
    note="Assumes make_sequence and the std containers behave as specified; at()/resize of the flag bitset itself belong to C03."),
  "C12": dict(level="other", design="4.10",
    technique="symbolic-position (polynomial) evaluation of every derived operator and every iterator primitive over the template patterns; ordering truth tables; primitive exhaustiveness; sign-conversion lint on instantiated members",
@@ -109,21 +109,21 @@ CHECKS = {
    text="Decides structural necessary conditions only: every subscript of the 256-entry decode table and of the 65-byte alphabet literal has an "
         "index whose interval (from operand types, casts and masks) lies inside the extent; the three alphabet literals equal RFC 4648, the pad is '=', "
         "the table is built as T[alphabet[i]] = i for exactly i=0..63 over a sentinel outside 0..63; the decoder tests that sentinel before a "
-        "character contributes; the shift/counter/mask constants of both accumulators are mutually consistent; where the encoder builds characters directly from bytes, every index bit has the RFC 4648 provenance. Round-trip equality is NOT decided.",
+        "character contributes; the shift/counter/mask constants of both accumulators are mutually consistent; where the encoder builds characters directly from bytes, every index bit has the RFC 4648 provenance. Round-trip equality is NOT decided. Loop bounds written with sizeof(array) are folded.",
    note="Trusts clang's resolved AST and sa/trange.py; an accumulator of a different shape is reported as analysis-broken, not as a violation."),
  "C16": dict(level="other", design="4.14",
    technique="symbolic linear-arithmetic entailment (guard implies range) over the span class-template pattern with helper members expanded, path-wise entailment for at(), wrap-free-atom lint, mode table from 4 configurations, body-instantiation witnesses under two compilers",
    text="For each of first/last/subspan (static and dynamic), operator[], front, back the TCB_SPAN_EXPECT condition is converted to linear facts "
         "(atoms that add two unbounded unsigned values or subtract unordered ones are rejected and reported) and must entail that the returned "
         "{data()+X, Y} lies in [0,size()] and is exactly the requested sub-range; at() must reject every idx >= size() with out_of_range; begin/end/"
-        "size_bytes/empty/reverse iterators and the 8 constructors must have their defining shape; the contract-mode table is read from 4 configurations.",
+        "size_bytes/empty/reverse iterators and the 8 constructors must have their defining shape; the contract-mode table is read from 4 configurations. A span is constructible from a container only with the container's own element type (cv added); a hand-written copy assignment takes over pointer and count on every path but true self-assignment.",
    note="Symbolic over Extent/Offset/Count/size(); trusts clang's pattern AST and sa/linear.py; assumes size()==Extent for static spans; validity of the caller's own range is outside the check."),
  "C04": dict(level="proof", design="4.4",
    technique="presence abstract interpretation (truth-table evaluation) of every overload body over clang's AST of the template patterns",
    text="Decides the property at the level of the overload bodies: each of the ~240 xoptional/xmasked_value operator, compound-assignment, "
         "comparison, lifted-function, select and value_or bodies (template patterns, so overloads no test instantiates are covered) is evaluated "
         "under all 2^k presence assignments with short-circuit semantics; obligations: presence = conjunction, value = own operation on operand "
-        "values in parameter order, no operation touches a missing operand's value, compound-assignment flag/target rules, ==/!= truth table; no function of the optional/masked-value headers has a failure exit (throw, assert without NDEBUG, abort).",
+        "values in parameter order, no operation touches a missing operand's value, compound-assignment flag/target rules, ==/!= truth table; no function of the optional/masked-value headers has a failure exit (throw, assert without NDEBUG, abort). On instantiations: constructors and assignments carry the source's flag (delegating constructors judged by what they delegate), no optional is converted to its bare value by an implicit user-defined conversion inside the library, and results over mixed scalars have the optional of the common type.",
    note="Trusts the ~400-line evaluator sa/presence.py and clang's pattern AST; assumes the underlying operation on the value types means what its name says; unary operators and == are exempt from non-evaluation as in the statement."),
  "C15": dict(level="proof", design="4.13",
    technique="interval/ordering abstract interpretation of every instantiation over clang's resolved AST + constexpr static_assert witnesses",
@@ -136,7 +136,7 @@ CHECKS = {
    technique="generated static_assert witnesses against independent oracles (Python list operations, decltype of a+b+c, std:: traits), discharged by the compiler",
    text="Every law is a static_assert generated for all type lists up to a bound (quick: length<=3 complete plus samples to 7; thorough: <=5), all "
         "promote_type packs of 1..2 (quick, plus thinned triples) / 1..3 (thorough) over 18 arithmetic types (incl. wchar_t, char16_t, char32_t) and 3 std::complex forms, all truth vectors "
-        "up to 3/4 for the logical traits with short-circuit (non-instantiation) witnesses, and hand-derived cv tables; the compiler discharges each on the current headers. Exhaustive within those bounds.",
+        "up to 3/4 for the logical traits with short-circuit (non-instantiation) witnesses, and hand-derived cv tables; the compiler discharges each on the current headers. Exhaustive within those bounds. identity (the self of a static_if branch) returns its argument in its own value category.",
    note="Trusts clang++ (and g++ in thorough) template instantiation; oracles live in sa/rules/c18.py; lists longer than the bound are not covered."),
  "C19": dict(level="exploration", design="4.17",
    technique="compile matrix + AST ODR lint + link witness + throw/noreturn pairing between exception configurations (static; nothing is executed)",
